@@ -455,4 +455,5 @@ pub fn check(e: &Engine) {
 		&run_fuzz,
 	);
 	e.require_label("arbitrary-strings", "parses", 0.05);
+	e.fuzz_leg("c19_signal", 6000000, 64, "coverage-guided libFuzzer (ASan) over raw strings; oracle inside the target: ASCII case-folding invariance of parsing, display round trip");
 }
